@@ -7,6 +7,7 @@ import json
 import os
 import sys
 import traceback
+sys.setrecursionlimit(12000)
 
 sys.path.insert(0, os.path.dirname(os.path.dirname(os.path.abspath(__file__))))
 
